@@ -129,6 +129,10 @@ var fixedZones = []*time.Location{time.UTC, time.FixedZone("", 3600), time.Fixed
 // GenTime draws instants in years 1..9999 with a fixed zone.
 func GenTime() *rapid.Generator[time.Time] {
 	return rapid.Custom(func(t *rapid.T) time.Time {
+		if Rare(t, "remarkableInstant", 4) {
+			// the zero time.Time (an unset field), the Unix epoch, the instants next to them
+			return rapid.SampledFrom([]time.Time{{}, time.Unix(0, 0).UTC(), time.Unix(0, 0).In(fixedZones[1%len(fixedZones)]), time.Unix(-1, 999999999).UTC(), time.Time{}.Add(time.Nanosecond)}).Draw(t, "instant")
+		}
 		sec := rapid.Int64Range(-62135596800+86400, 253402300799-86400).Draw(t, "sec")
 		nsec := rapid.OneOf(rapid.Int64Range(0, 999999999), rapid.SampledFrom([]int64{0, 1, 500, 999999999, 123456000, 100000000})).Draw(t, "nsec")
 		loc := rapid.SampledFrom(fixedZones).Draw(t, "zone")
